@@ -129,6 +129,16 @@ class Session:
         else:
             self.tree = base("t")
         self.base_cls = base
+        # wrapped dict records: the id of a wrapper is the identity of the dict *the caller passed in* (remembered here, not
+        # read back from the wrapper)
+        self.dw_src = {}
+        self.dw_keep = []
+        _plain_rule = rule
+
+        def rule(data, _r=_plain_rule):
+            src = self.dw_src.get(id(data))
+            return id(src) if src is not None else _r(data)
+
         self.m = M.MTree(typed=typed, rule=rule, default_kind=default_kind)
         self.bind = {}       # uid -> real node
         self.tok = {}        # id(real node) -> (uid, node)  (strong refs: ids are never reused)
@@ -137,7 +147,7 @@ class Session:
         self.ever_data = []
         self.log = []
         self.DW = DictWrapper
-        self.dicts = [{"i": i} for i in range(5)]
+        self.dicts = [{"i": i} for i in range(4)] + [{}]  # (one record is still empty: it is the dict *object* that is wrapped)
         self.objs = [Obj(f"g{i}", f"o{i}") for i in range(6)] + [Obj("g0", "o0-twin")]
         self.weirds = [Weird(i) for i in range(5)] + [Weird(0)]  # the last one: another object with the hash of the first
         self.counters = {}
@@ -158,7 +168,11 @@ class Session:
         if f == "dc":
             return P(rng.choice("ab"), rng.choice([1, 2]))
         if f == "dw":
-            return self.DW(rng.choice(self.dicts))
+            d = rng.choice(self.dicts)
+            w = self.DW(d)
+            self.dw_src[id(w)] = d
+            self.dw_keep.append(w)
+            return w
         if f == "obj":
             return rng.choice(self.objs)
         if f == "weird":
